@@ -178,6 +178,12 @@ def judge(events, outs):
                                 {"got": cls, "twin": out["ref_class"]}))
                 elif out.get("ref_diff"):
                     V.append(_v("C02", f"C02/{fl}/predict/history-dependent:{_cols(out['ref_diff'])}", ev))
+            if "pristine_class" in out:
+                if out["pristine_class"] != cls:
+                    V.append(_v("C02", f"C02/{fl}/predict/differs-from-pristine-process:outcome", ev,
+                                {"got": cls, "pristine": out["pristine_class"]}))
+                elif out.get("pristine_diff"):
+                    V.append(_v("C02", f"C02/{fl}/predict/differs-from-pristine-process:{_cols(out['pristine_diff'])}", ev))
             if "store_ref_class" in out:
                 if out["store_ref_class"] != cls:
                     V.append(_v("C01", f"C01/{fl}/restored/predict/outcome-differs", ev,
@@ -193,6 +199,19 @@ def judge(events, outs):
             if cls == "returned" and out.get("state_mode") == "json":
                 k = "pred|" + "|".join([out["model_digest"], out["rid"], str(f["ignore"]), str(a.get("agg"))])
                 key_check("C03", k, out["frame"], ev, lambda first, fl=fl: f"C03/{fl}/predict/differs")
+
+        elif kind == "ABORT_SWEEP":
+            if cls != "done":
+                continue
+            fl = flabel(out["fam"], out["profile"])
+            seen = set()
+            for b in out.get("altered") or []:
+                sg = f"C02/{fl}/predict-aborted/alters-model:{'+'.join(b['paths']) or 'state'}"
+                if sg not in seen:
+                    seen.add(sg)
+                    V.append(_v("C02", sg, ev, {"abort_at_entry": b["k"], "where": b["where"], "of": out["entries"]}))
+            if out.get("data_changed"):
+                V.append(_v("C02", f"C02/{fl}/predict-aborted/alters-data:{'+'.join(out['data_changed'])}", ev))
 
         elif kind == "PREDICT_PAIR":
             if cls != "done" or not out.get("covers"):
